@@ -1039,9 +1039,17 @@ impl Model {
                     }
                 }
                 Some(co) => {
-                    if co.members.contains_key(nick) || accepted.contains(&ch) {
-                        // JOIN by a current member: not judged
+                    if accepted.contains(&ch) {
+                        // the same name twice in one JOIN: not judged
                         e.unknown = true;
+                        continue;
+                    }
+                    if co.members.contains_key(nick) {
+                        // JOIN by a current member: nothing changes; whether (and how) the server
+                        // answers for this entry is not judged, the other entries are
+                        for code in ["405", "471", "473", "474", "475"] {
+                            e.opt(c, snl(code, &[&ch]));
+                        }
                         e.tag("join:already-member");
                         continue;
                     }
